@@ -7,16 +7,29 @@ ROOT = os.path.dirname(os.path.dirname(os.path.abspath(__file__)))
 ENV = dict(os.environ, GOFLAGS="-mod=mod", GOPROXY="off", GOSUMDB="off", GOTOOLCHAIN="local", GOWORK="off")
 props = sorted(json.load(open(os.path.join(ROOT, "tools", "claims.json")))["claimed"])
 
-def findings(repo):
+def run_props(repo, ps):
     ev = tempfile.mkdtemp(prefix="nsweepev.")
-    out = subprocess.run([os.path.join(ROOT, "bin", "gqlvet"), "findings"] + props, env=dict(ENV, GQLVET_REPO=repo, GQLVET_EVIDENCE=ev),
+    out = subprocess.run([os.path.join(ROOT, "bin", "gqlvet"), "findings"] + ps, env=dict(ENV, GQLVET_REPO=repo, GQLVET_EVIDENCE=ev),
                          capture_output=True, text=True).stdout
     subprocess.run(["rm", "-rf", ev])
+    return out
+
+def findings(repo):
+    out = run_props(repo, props)
+    done = {l.split()[1] for l in out.splitlines() if l.startswith("DONE ")}
+    lines = [l for l in out.splitlines() if l.startswith("FINDING ") and l.split(" ", 3)[1] in done]
+    for p in props:
+        if p in done:
+            continue
+        o = run_props(repo, [p])
+        if ("DONE " + p) in o:
+            lines += [l for l in o.splitlines() if l.startswith("FINDING ")]
+        else:
+            lines.append("FINDING %s crash analyser crashed" % p)
     res = set()
-    for l in out.splitlines():
-        if l.startswith("FINDING "):
-            _, p, kind, key = l.split(" ", 3)
-            res.add(p + " " + kind + " " + key)
+    for l in lines:
+        _, p, kind, key = l.split(" ", 3)
+        res.add(p + " " + kind + " " + key)
     return res
 
 def worktree():
